@@ -13,6 +13,7 @@
 -/
 import ChessVerif.Basic
 import ChessVerif.Gen.Transp
+import ChessVerif.Spec.AbstractTT
 
 namespace ChessVerif.Model.Transp
 open ChessVerif
@@ -124,7 +125,7 @@ def bucketIx (hash : BitVec 64) (n : Nat) : Nat :=
   ((hash.toNat % 2 ^ 32) * (n % 2 ^ 64) % 2 ^ 64) >>> 32
 
 /-- `partialKey(hash >> (64 - partialKeyBits))` -/
-def sigOf (hash : BitVec 64) (shift : Int) : Sig := (hash >>> shift.toNat).setWidth 16
+def partialKeyOf (hash : BitVec 64) (shift : Int) : Sig := (hash >>> shift.toNat).setWidth 16
 
 /-! ### Insert -/
 
@@ -197,34 +198,22 @@ def Table.clear (t : Table) : Table := t.map (fun _ => Bucket.zero)
 
 /-- `func (t *Table) LookUp(hash) (*entry, bool)` -/
 def Table.lookUp (t : Table) (hash : BitVec 64) : Option Entry :=
-  (t.getD (bucketIx hash t.size) Bucket.zero).lookUp (sigOf hash Gen.Transp.lookupKeyShift)
+  (t.getD (bucketIx hash t.size) Bucket.zero).lookUp (partialKeyOf hash Gen.Transp.lookupKeyShift)
 
 /-- `func (t *Table) Insert(hash, gen, d, ply, sm, value, typ)` -/
 def Table.insert (t : Table) (hash : BitVec 64) (gen : BitVec 8) (d ply : Int) (sm : BitVec 16)
     (value : Int) (typ : BitVec 8) : Table :=
   t.modify (bucketIx hash t.size)
-    (fun b => b.insert (sigOf hash Gen.Transp.insertKeyShift) gen d ply sm value typ)
+    (fun b => b.insert (partialKeyOf hash Gen.Transp.insertKeyShift) gen d ply sm value typ)
 
 /-! ### operation sequences -/
 
-/-- The arguments of one `Insert`. -/
-structure StoreArgs where
-  hash : BitVec 64
-  gen : BitVec 8
-  d : Int
-  ply : Int
-  mv : BitVec 16
-  value : Int
-  typ : BitVec 8
-  deriving DecidableEq, Repr
+/-- The arguments of one `Insert` (shared with the specification). -/
+abbrev StoreArgs := Spec.AbstractTT.Store
 
-/-- State-changing operations (a probe does not change the table). -/
-inductive Op where
-  | store (s : StoreArgs)
-  | clear
-  /-- `Resize(size)` followed by `Clear()` (or `New(size)`) -/
-  | resizeClear (size : Nat)
-  deriving DecidableEq, Repr
+/-- State-changing operations (a probe does not change the table): `store`, `clear`, and
+    `resizeClear size` = `Resize(size)` followed by `Clear()` (or `New(size)`). -/
+abbrev Op := Spec.AbstractTT.Op
 
 def Table.step (t : Table) : Op → Table
   | .store s => t.insert s.hash s.gen s.d s.ply s.mv s.value s.typ
